@@ -286,6 +286,19 @@ def flat_seqs() -> list[tuple]:
     return out
 
 
+def flat_seqs_rep() -> list[tuple]:
+    """the fragment of theorem checkModel_flat_seq_refusal_sound beyond flat_seqs(): a sequence that repeats
+    ({0,∞}, {1,∞}, {2,2}, {1,2}) of 1..3 references to plain global elements"""
+    out = []
+    for k in (1, 2, 3):
+        names = ('a', 'b', 'c') if k < 3 else ('a', 'b')
+        opts = [('e', n, lo, hi) for n in names for lo, hi in cm.OCC_SMALL]
+        for items in itertools.product(opts, repeat=k):
+            for lo, hi in ((0, None), (1, None), (2, 2), (1, 2)):
+                out.append(('g', 'sequence', lo, hi, list(items)))
+    return out
+
+
 def token_model(rng) -> tuple:
     """XSD 1.1: a small model with at least one wildcard whose notQName has ##defined / ##definedSibling"""
     while True:
